@@ -1,0 +1,6 @@
+//go:build !verif
+
+package simhook
+
+// Point is a no-op unless the library is built with the verif tag.
+func Point(site int) {}
